@@ -21,7 +21,12 @@ for p in props:
         continue
     # claim a property only once its check has run clean at least once in this tree
     evp = os.path.join(ROOT, "evidence", pid + ".json")
-    if not os.path.exists(evp) or json.load(open(evp)).get("violations", 1) != 0:
+    if not os.path.exists(evp):
+        continue
+    ev = json.load(open(evp))
+    cov = ev.get("coverage", {})
+    if ev.get("violations", 1) != 0 or cov.get("obligations", 0) < 1 \
+            or cov.get("discharged") != cov.get("obligations"):
         continue
     claimed.append(pid)
     checks.append({
